@@ -537,6 +537,65 @@ def stationarity_part(ctx):
         ctx.notes.append('sensitivity: the density with selection strength gamma instead of gamma*nu (nu=%r, gamma=%r) moves by %.3g of its largest entry under one_pop, the current one by %.3g' % big)
         ctx.obligation('the stationarity predicate distinguishes gamma from gamma*nu (drift of the gamma-only form %.3g >> %.3g)' % (big[2], big[3]), big[2] > 10 * max(big[3], 1e-3), 'predicate')
 
+# ------------------------------------------------------------------------------------------------
+# one_pop against the scheme model (the integrator model of C02, imported): a missing 1/nu, a wrong boundary term,
+# a misplaced mutation influx are O(1) here while they can hide below the 1.5 % of the accuracy check
+
+def driver_part(ctx):
+    from harness.numgen import coq_pop, HEADER as SCHEME_HEADER
+    rng = ctx.rng
+    cases = []
+    for rep in range(ctx.pick(8, 60)):
+        n = rng.randint(5, 14)
+        g = numgen.grid(rng, n, kind=rng.choice(['uniform', 'exp', 'quad', 'random']))
+        p = numgen.pop(rng, 1, beta=True)
+        p['nu'] = numgen.logdy(rng, 0.05, 20)
+        p['gamma'] = lib.dyadic(rng, -8, 8, 3) if rng.random() < 0.7 else 0.0
+        p['ms'] = []
+        tf = rng.choice([1 / 64, 1 / 128, 1 / 256, 1 / 1024])
+        mv = max(0.25 / p['nu'], abs(p['gamma']) * 0.25)
+        dt = tf / mv
+        nsteps = rng.choice([1, 2, 3])
+        T = numgen.logdy(rng, dt * (nsteps - 0.6), dt * (nsteps - 0.1))
+        mode = rng.choice([None, 'const', 'lin'])
+        c = {'kind': 'drv', 'shape': [n], 'grid': g, 'pops': [p], 'theta0': lib.dyadic(rng, 0.25, 4, 4), 'tf': tf, 'T': T,
+             'phi': numgen.density(rng, n), 'as_func': mode, 'theta_slope': 0.0, 'id': len(cases)}
+        if mode == 'lin':
+            p['nu_slope'] = lib.dyadic(rng, 0, 2, 3); c['theta_slope'] = lib.dyadic(rng, 0, 1, 3)
+        cases.append(c)
+    res = lib.run_impl('c01_impl.py', cases, timeout=900)
+    byid = {r['id']: r for r in res}
+    exprs = []
+    for c in cases:
+        r = byid[c['id']]
+        ctx.count('driver %s' % ('constants' if c['as_func'] is None else 'functions'))
+        if 'error' in r or not all(math.isfinite(v) for v in r.get('res', [float('nan')])):
+            ctx.obligation('driver case %d runs' % c['id'], False, 'correspondence', r.get('error', 'non-finite'))
+            ctx.violation('Integration.one_pop failed or returned non-finite values: %s' % r.get('error', 'non-finite'), data={'case': c, 'impl': r})
+            continue
+        lin = c['as_func'] == 'lin'
+        exprs.append((c['id'], ('{| dc_shape := %s; dc_grid := %s; dc_pops := [%s]; dc_nuslopes := %s; dc_theta0 := %s; dc_thslope := %s; dc_tf := %s; '
+                                'dc_delj := false; dc_T := %s; dc_tdep := %s; dc_phi := %s; dc_impl := %s |}') % (
+            lib.natl(c['shape']), ql(c['grid']), coq_pop(c['pops'][0]), ql([c['pops'][0].get('nu_slope', 0.0) if lin else 0.0]), q(c['theta0']),
+            q(c['theta_slope'] if lin else 0.0), q(c['tf']), q(c['T']), b(c['as_func'] is not None), zzl(c['phi']), zzl(r['res']))))
+    results = ctx.coq_cases('drv', SCHEME_HEADER, exprs, '(dcheck %s)' % q(Fraction(1, 10 ** 9)), 'rel 1e-9 of max|phi|', shard=ctx.pick(2, 6), timeout=1800)
+    nbad = 0
+    for c in cases:
+        if c['id'] not in [e[0] for e in exprs]:
+            continue
+        rr = results.get(c['id'])
+        ok = rr is not None and rr[0]
+        ctx.case(signature=('drv', json.dumps(c, sort_keys=True)))
+        p = c['pops'][0]
+        ctx.obligation('one_pop = documented implicit scheme (model), case %d: nu=%r gamma=%r h=%r beta=%r as_func=%r' % (c['id'], p['nu'], p['gamma'], p['h'], p['beta'], c['as_func']),
+                       ok, 'correspondence', '' if ok else 'coq %r' % (rr,))
+        if not ok:
+            nbad += 1
+            if nbad <= 2:
+                ctx.violation('Integration.one_pop does not solve the documented scheme (V = x(1-x)/nu (beta+1)^2/(4 beta), M = gamma 2(h+(1-2h)x)x(1-x), influx theta0/2 at the first interior point, '
+                              'absorbing boundary terms 0.5/nu): nu=%r gamma=%r h=%r beta=%r theta0=%r as_func=%r differs from the model beyond 1e-9' % (p['nu'], p['gamma'], p['h'], p['beta'], c['theta0'], c['as_func']),
+                              data={'case': c, 'impl': byid[c['id']], 'coq': rr})
+
 def run(ctx):
     ctx.level = 'proof (partial)'
     ctx.rule = ('density cases = (gamma on a forced grid through 0, +-1e-8, +-299.9/300/300.1, the exp-overflow guard, -1e6, 1e3 and log-uniform '
@@ -562,6 +621,8 @@ def run(ctx):
         if not ctx.replay:
             continuity_part(ctx, guard, fnd)
         fnd.flush()
+    if (not only or 'drv' in only) and not ctx.replay:
+        driver_part(ctx)
     if not only or 'stat' in only:
         stationarity_part(ctx)
     if not only or 'hist' in only:
